@@ -3,5 +3,4 @@
 From TL Require Import Lib.Base Model.Contain.
 
 Definition contain_actual : cquirks := {|
-  q_value_error_escapes := true;
-  q_finalize_unguarded := true |}.
+  q_value_error_escapes := true |}.
